@@ -378,8 +378,9 @@ def extract_playback_tests(text):
         fq, body = m.group(1), m.group(2)
         mm = re.search(r"fn (kani_concrete_playback_\w+)\(", body)
         chk = re.search(r"/// Check for `([^`]*)`: (.*)", body)
-        if chk and chk.group(1) == "cover":
-            continue  # witnesses of reachability, not failures
+        # NOTE: tests labelled `cover` are kept: Kani de-duplicates tests with identical concrete values,
+        # so the trace of a failed assertion may be printed under the label of a cover it also satisfies.
+        # A pure reachability witness simply passes natively; only a native panic confirms a violation.
         out.append({"harness": fq, "test_name": mm.group(1) if mm else None, "body": body,
                     "check": chk.group(2).strip() if chk else ""})
     return out
